@@ -1,7 +1,7 @@
 (* C07 — Serialized data validates against serialization_schema. *)
 From Coq Require Import List String ZArith Bool.
 From AV Require Import Core.Json Deser.Model Deser.Spec Ser.Model Ser.Spec Ser.RoundTrip Ser.RoundTripInd Schema.Json Schema.Build Schema.Proofs
-  Schema.AgreeProofs Schema.SerAgree Schema.BuildSer Schema.RefAgree Schema.SerClassProofs Schema.SerRequired Ser.CompileProofs.
+  Schema.AgreeProofs Schema.SerAgree Schema.BuildSer Schema.RefAgree Schema.SerClassProofs Schema.SerRequired Schema.ImageInvGen Schema.SerClassGen Ser.CompileProofs.
 Import ListNotations.
 
 (* the union schema accepts whatever one of the alternatives' schemas accepts: the serialized form of a union value,
@@ -103,3 +103,30 @@ Theorem C07_required_hypotheses_satisfiable :
     /\ map fst ds = ["p_v"; "p_nextNode"; "p_tags"; "p_pos"; "p_extra"; "p_size"]%string.
 Proof. exact required_ex. Qed.
 Print Assumptions C07_required_hypotheses_satisfiable.
+
+(* EVERY SERIALIZATION OPTION.  For dataclasses / NamedTuples given inline whose fields carry any skip(...) option, any kind of
+   default, none_as_undefined, an Undefined union, under exclude_none / exclude_defaults, with any order() and serialized
+   methods returning primitives: what serialization produces validates against the schema of the builder model.  The
+   image invariant is proved again for objects that hold a *subset* of their properties (Schema/ImageInvGen.v): each
+   emitted key belongs to exactly one element and carries a valid datum, the keys are distinct, every required element is
+   present (Schema/SerRequired.v). *)
+Theorem C07_output_validates_under_every_serialization_option :
+  forall u so t n jf v,
+  gen_hyps u so t n v = true ->
+  exists j d, image u so (S n) t v = SROk j /\ unembed j = Some d /\
+              (in_domain d = true ->
+               jvalid false (snd (model_ser_schema u so false t)) jf (fst (model_ser_schema u so false t)) d = true).
+Proof. exact serialized_output_validates_all_options_checked. Qed.
+Print Assumptions C07_output_validates_under_every_serialization_option.
+
+(* satisfiable where the first class theorem does not apply: a skipped default, a dropped None, an Undefined union and a
+   serialized method under exclude_defaults; the second line holds five properties, the first only two *)
+Theorem C07_every_option_hypotheses_satisfiable :
+  gen_hyps gen_ex_univ gen_ex_opts (TObj 1) 3 gen_ex_value = true
+  /\ ser_hyps gen_ex_univ gen_ex_opts (TObj 1) 3 12 gen_ex_value = false
+  /\ exists j, image gen_ex_univ gen_ex_opts 4 (TObj 1) gen_ex_value = SROk j
+               /\ unembed j = Some (PDict [("p_lines", PList [PDict [("p_sku", PStr "x"); ("p_total", PInt 3)];
+                                                               PDict [("p_sku", PStr "y"); ("p_quantity", PInt 2); ("p_note", PStr "n");
+                                                                      ("p_tag", PStr "t"); ("p_total", PInt 3)]])]%string).
+Proof. exact gen_ex. Qed.
+Print Assumptions C07_every_option_hypotheses_satisfiable.
